@@ -3,10 +3,10 @@
 package main
 
 import (
-	"github.com/rs/zerolog"
 	"bufio"
 	"flag"
 	"fmt"
+	"github.com/rs/zerolog"
 	"os"
 	"strings"
 	"time"
